@@ -111,7 +111,7 @@ Definition sanctioned_sites : list sanction := [
   mkSan "_common.py" "_dot_csc_ndarray_type_sparse._dot_csc_ndarray_sparse" "np.empty" "b_shape[1] + 1, dtype=np.intp" 1 RIndptr;
   mkSan "_common.py" "_dot_csc_ndarray_type_sparse._dot_csc_ndarray_sparse" "np.empty" "nnz, dtype=np.intp" 1 RNnz;
   mkSan "_common.py" "_dot_csc_ndarray_type_sparse._dot_csc_ndarray_sparse" "np.empty" "nnz, dtype=dtr" 1 RNnz;
-  mkSan "_common.py" "_dot_csc_ndarray_type_sparse._dot_csc_ndarray_sparse" "np.zeros" "a_shape[0]" 1 RAxis;
+  mkSan "_common.py" "_dot_csc_ndarray_type_sparse._dot_csc_ndarray_sparse" "np.zeros" "a_shape[0], dtype=dtr" 1 RAxis;
   mkSan "_common.py" "_dot_csc_ndarray_type_sparse._dot_csc_ndarray_sparse" "np.full" "a_shape[0], -1" 1 RAxis;
   mkSan "_common.py" "_dot_csc_ndarray_type_sparse._dot_csc_ndarray_sparse" "np.argsort" "indices[start:nnz]" 1 RNnz;
   mkSan "_common.py" "_dot_csc_ndarray_type._dot_csc_ndarray" "np.zeros" "(a_shape[0], b_shape[1]), dtype=dtr" 1 RDenseOperand;
@@ -284,7 +284,7 @@ Definition reviewed_writes : list rwrite := [
   mkRW "_common.py" "_dot_csc_ndarray_type_sparse._dot_csc_ndarray_sparse" "indices" "np.empty(nnz, dtype=np.intp)" WFresh;
   mkRW "_common.py" "_dot_csc_ndarray_type_sparse._dot_csc_ndarray_sparse" "data" "np.empty(nnz, dtype=dtr)" WFresh;
   mkRW "_common.py" "_dot_csc_ndarray_type_sparse._dot_csc_ndarray_sparse" "mask" "np.full(a_shape[0], -1)" WFresh;
-  mkRW "_common.py" "_dot_csc_ndarray_type_sparse._dot_csc_ndarray_sparse" "sums" "np.zeros(a_shape[0])" WFresh;
+  mkRW "_common.py" "_dot_csc_ndarray_type_sparse._dot_csc_ndarray_sparse" "sums" "np.zeros(a_shape[0], dtype=dtr)" WFresh;
   mkRW "_common.py" "_dot_csc_ndarray_type._dot_csc_ndarray" "val" "out[ind]" WView;
   mkRW "_common.py" "_dot_coo_coo_type._dot_coo_coo" "next_" "np.full(n_col, -1)" WFresh;
   mkRW "_common.py" "_dot_coo_coo_type._dot_coo_coo" "sums" "np.zeros(n_col, dtype=dtr)" WFresh;
